@@ -171,6 +171,25 @@ def run(pid, tier, seed):
         data = mutate_bytes(r, data) if r.chance(0.5) else mutate_tokens(r, data.decode("latin-1"), "MPS").encode("latin-1")
         cases.append(("basis", "BAS", "b%d.bas" % (k % 40), data))
 
+    # valid but unusual files, written by hand: constructs the library's own writers never emit
+    HAND = [
+        ("MPS", "NAME t\nROWS\n N obj\n N other\n G r1\nCOLUMNS\n x obj 1 r1 1\n onlyfree other 3\n y r1 2\nRHS\n rhs r1 4\nENDATA\n"),
+        ("MPS", "NAME t\nROWS\n N obj\n N spare\n L r1\n E r2\nCOLUMNS\n a spare 1\n b spare 2 obj 1\n c r1 1 r2 1\nRHS\n rhs r1 4 r2 1\nBOUNDS\n UP bnd a 3\nENDATA\n"),
+        ("MPS", "NAME t\nROWS\n N obj\n G r1\nCOLUMNS\n x obj 1 r1 1\n x obj 2\n y r1 2\nRHS\n rhs r1 4\n rhs obj 7\nENDATA\n"),
+        ("MPS", "NAME t\nOBJSENSE\n MAX\nROWS\n N obj\n L r1\nCOLUMNS\n MARKER 'MARKER' 'INTORG'\n x obj 1 r1 1\n MARKER 'MARKER' 'INTEND'\n y obj 1 r1 1\nRHS\n rhs r1 4\nBOUNDS\n BV bnd x\n MI bnd y\nENDATA\n"),
+        ("MPS", "NAME t\nROWS\n N obj\n L r1\nCOLUMNS\n x obj 1 r1 1\nRHS\n rhs r1 4\n"),
+        ("MPS", "NAME\nROWS\n N obj\nCOLUMNS\nRHS\nENDATA\n"),
+        ("LP", "Minimize\n obj: x + y\nSubject To\n c1: x + y >= 1\n\n\n c2: x - y <= 3\nBounds\n\n x <= 4\nEnd\n"),
+        ("LP", "Maximize\n x\nSubject To\n x + y <= 4\n x + y + x >= 1\nBounds\n -inf <= y <= 3\n x free\nEnd"),
+        ("LP", "Minimize\n obj:\nSubject To\n c1: x >= 1\nEnd\n"),
+        ("LP", "Minimize\n obj: 3 x + 2 y - x + 0.5 y + y\nSubject To\n c1: x + y + y >= 2\nEnd\n"),
+        ("LP", "Minimize\n obj: x\nSubject To\n c1: 2 >= x\n c2: -x <= -1\n c3: 1 <= x <= 5\nGeneral\n x\nEnd\n"),
+    ]
+    for k, (fmt, text) in enumerate(HAND):
+        cases.append(("handmade", fmt, "h%d.%s" % (k, fmt.lower()), text.encode("latin-1")))
+        for j in range(3 if quick else 20):
+            r = rng.fork("hand%d_%d" % (k, j))
+            cases.append(("handmade-mutated", fmt, "hm%d_%d.%s" % (k, j, fmt.lower()), mutate_tokens(r, text, fmt).encode("latin-1")))
     base_lp = "new 0 " + gen.LP("min", [[F(1), F(0), gen.INF], [F(1), F(0), gen.INF]], [["G", F(1), F(0), [(0, F(1)), (1, F(1))]]]).line()
     batches = core.chunks(cases, build.NCPU * 2)
 
